@@ -17,7 +17,8 @@ RULE = ('cases: APDU.encode on headers of all eight types — flag bits x all 8x
         'APDU.decode of the empty string, every 1-octet string, every first octet x a boundary grid of second octets (all 65536 in the '
         'thorough tier), random longer strings; the four table functions on a grid of capabilities (all of -5..2000 in the thorough '
         'tier) and all code points -20..20.  non-trivial = an encode that yields octets or is refused, a decode of >= 1 octet, a table '
-        'call; distinct by (operation, input).  The direct check sweeps the full cross product of the property text on the implementation alone.')
+        'call; distinct by (operation, input); in the direct check: cross-product headers (distinct by construction), distinct random '
+        '(header, payload) pairs, table arguments, distinct octet strings that decode to a header.  The direct check sweeps the full cross product of the property text on the implementation alone.')
 TRUSTED = ['model coq/theories/Apci.v written by hand after apdu.py:175-322 (APCI.encode/decode) and apdu.py:370-381 (APDU.encode/decode); '
            'tie = in-kernel correspondence',
            'coq/gen/ApduFns.v is AST-translated from apdu.py:58-108 on every run; the rounding theorems are about that text',
@@ -187,6 +188,55 @@ def case_dec(octets, kind='dec'):
                 nontrivial=len(octets) >= 1, desc={'op': 'decode', 'octets': bytes(octets).hex()})
 
 
+def _typed_obj(h, payload):
+    from bacpypes import apdu as A
+    x = A.apdu_types[h['apduType']]()
+    for k in FIELDS:
+        if k != 'apduType':
+            setattr(x, k, h[k])
+    x.pduData = bytearray(payload)
+    return x
+
+
+def impl_encode_typed(h, payload):
+    from bacpypes import apdu as A
+    from bacpypes.pdu import PDU
+
+    def f():
+        a = A.APDU()
+        _typed_obj(h, payload).encode(a)        # _APDU.encode: APCI.update(a, self) + payload
+        pdu = PDU()
+        a.encode(pdu)
+        return bytes(pdu.pduData)
+    return canon_call(f, list)
+
+
+def impl_decode_typed(octets):
+    from bacpypes import apdu as A
+    from bacpypes.pdu import PDU
+
+    def f():
+        a = A.APDU()
+        a.decode(PDU(bytes(octets)))
+        y = A.apdu_types[a.apduType]()
+        y.decode(a)                             # _APDU.decode: APCI.update(self, a) + payload
+        return {k: getattr(y, k) for k in FIELDS}, bytes(y.pduData)
+    return canon_call(f, canon_hdr)
+
+
+def case_enc_typed(h, payload):
+    exp = impl_encode_typed(h, payload)
+    return Case('enc-typed', 'canon_enc (enc_apdu %s %s)' % (coq_hdr(h), nlist(payload)), exp,
+                key=('enc-typed', repr(sorted(h.items(), key=str)), bytes(payload)), nontrivial=True,
+                desc={'op': 'encode', 'via': 'typed', 'header': {k: h[k] for k in FIELDS if h[k] is not None}, 'payload': bytes(payload).hex()})
+
+
+def case_dec_typed(octets):
+    exp = impl_decode_typed(octets)
+    return Case('dec-typed', 'canon_dec (dec_apci %s)' % nlist(octets), exp, key=('dec-typed', bytes(octets)),
+                nontrivial=True, desc={'op': 'decode', 'via': 'typed', 'octets': bytes(octets).hex()})
+
+
 def case_table(name, arg):
     exp = impl_table(name, arg)
     canon = 'canon_tbl_dec' if name.startswith('decode') else 'canon_tbl_enc'
@@ -299,7 +349,7 @@ def malformed_headers(rng):
     return out
 
 
-SECONDS = [0, 1, 15, 16, 0x7F, 0x80, 0x8F, 0xF0, 255]
+SECONDS = [0, 0x7F, 0x80, 255]
 
 
 def table_args(rng, tier):
@@ -308,7 +358,7 @@ def table_args(rng, tier):
     s = set(range(-5, 141))
     for b in (50, 128, 206, 480, 1024, 1476, 2000, 64, 65):
         s.update(range(b - 2, b + 3))
-    s.update(rng.randrange(0, 2001) for _ in range(150))
+    s.update(rng.randrange(0, 2001) for _ in range(60))
     return sorted(s)
 
 
@@ -329,19 +379,30 @@ def cases(rng, tier):
     for h in confirmed_grid(rng, 3 if big else 1):
         both(h, 'enc-confirmed_request')
     for ty in (1, 2, 4, 5, 6, 7):
-        for h in product_headers(ty):
+        hs = list(product_headers(ty))
+        if ty == 4 and not big:
+            hs = rng.sample(hs, 250)
+        for h in hs:
             both(h, 'enc-' + TYPE_NAMES[ty])
     ca = list(product_headers(3))
     if not big:
-        ca = rng.sample(ca, 400)
+        ca = rng.sample(ca, 250)
     for h in ca:
         both(h, 'enc-complex_ack')
-    for _ in range(3000 if big else 400):
+    for _ in range(3000 if big else 200):
         both(random_header(rng), 'enc-random')
+    # the same through the typed PDU classes and APCI.update (model: update copies every attribute)
+    for _ in range(2000 if big else 200):
+        h = random_header(rng)
+        payload = rand_payload(rng)
+        c = case_enc_typed(h, payload)
+        out.append(c)
+        if c.expected[0] == 0:
+            out.append(case_dec_typed(bytes(c.expected[1:])))
     for h in malformed_headers(rng):
         out.append(case_enc(h, rand_payload(rng), 'enc-malformed'))
     # truncations of valid encodings (short buffers -> DecodingError via PDUData.get)
-    for bs in rng.sample(encoded, min(len(encoded), 1500 if big else 150)):
+    for bs in rng.sample(encoded, min(len(encoded), 1500 if big else 100)):
         for k in range(len(bs)):
             out.append(case_dec(bs[:k], 'dec-truncated'))
     # exhaustive short strings
@@ -352,10 +413,10 @@ def cases(rng, tier):
         if big:
             seconds = range(256)
         else:
-            seconds = SECONDS + [rng.randrange(256) for _ in range(2)]
+            seconds = SECONDS + [rng.randrange(256)]
         for b in seconds:
             out.append(case_dec(bytes([a, b]), 'dec-exh'))
-    for _ in range(20000 if big else 1000):
+    for _ in range(10000 if big else 600):
         n = rng.choice([3, 3, 4, 5, 6, 7, 10])
         bs = bytearray(rng.randrange(256) for _ in range(n))
         if rng.random() < 0.7:
@@ -562,13 +623,15 @@ def direct(rng, tier, focus=()):
         nontriv += cnt
         samples.append({'direct': 'layout+restore ' + TYPE_NAMES[ty], 'headers': cnt})
     # random octets everywhere, longer payloads
+    seen_random = set()
     for _ in range(100000 if big else 15000):
         h = random_header(rng)
         payload = bytes(rng.randrange(256) for _ in range(rng.choice([0, 1, 2, 5, 20, 60])))
         add(check_header(h, payload))
         add(check_typed(h, payload))
         n += 2
-        nontriv += 1
+        seen_random.add((tuple(canon_field(h[k]) for k in FIELDS), payload))
+    nontriv += len(seen_random)          # cross-product headers above are distinct by construction
     # (b) tables
     tf, tn = check_tables()
     for f in tf:
@@ -576,14 +639,15 @@ def direct(rng, tier, focus=()):
     n += tn
     nontriv += tn
     # (c) arbitrary octet strings
-    dec_ok = 0
+    dec_ok = set()
 
     def arb(bs):
-        nonlocal n, dec_ok
+        nonlocal n
         n += 1
         f, ok = check_arbitrary(bs)
         add(f)
-        dec_ok += ok
+        if ok:
+            dec_ok.add(bs)
 
     arb(b'')
     for a in range(256):
@@ -606,8 +670,8 @@ def direct(rng, tier, focus=()):
                 if all(k in FLAGS or 0 <= h[k] <= 255 for k in relevant(h)) and (h['apduType'] != 0 or (h['apduMaxSegs'] < 8 and h['apduMaxResp'] < 16)):
                     add(check_header(h, bytes.fromhex(d['payload'])))
                     n += 1
-    nontriv += dec_ok
-    samples.append({'direct': 'arbitrary octet strings', 'decoded_to_header': dec_ok})
+    nontriv += len(dec_ok)
+    samples.append({'direct': 'arbitrary octet strings', 'decoded_to_header': len(dec_ok)})
     return failures, {'evaluations': n, 'distinct_nontrivial': nontriv, 'exhaustive': True,
                       'exhaustive_domain': 'flag bits x code points x {0,1,127,128,255} per octet field for all eight types (layout, restore); '
                                            'capabilities 0..2000 and all 8 / 16 code points of the two tables; all octet strings of length <= 2 (decode totality)',
@@ -622,8 +686,14 @@ def classify(failure):
 def replay(payload):
     f = payload.get('failure')
     if not f:
-        b = payload.get('broken', [{}])
-        f = (b[0].get('minimal_case', {}) if isinstance(b[0], dict) else {}).get('desc', {})
+        f = {}
+        for b in payload.get('broken', []):
+            if isinstance(b, dict) and b.get('minimal_case'):
+                mc = b['minimal_case']
+                f = dict(mc.get('desc') or {})
+                print('correspondence: implementation', mc.get('implementation'), 'model', mc.get('model'))
+            elif isinstance(b, dict):
+                print('broken:', b.get('what'))
     print('replay', f)
     if 'octets' in f and f.get('kind', '').startswith('decode') or f.get('op') == 'decode':
         print('implementation decode:', impl_decode(bytes.fromhex(f['octets'])))
